@@ -178,3 +178,60 @@ h!(c14_generate_single_leaf, 300, {
     }
     core::mem::forget(proof); core::mem::forget(tree);
 });
+
+// ---- C12: the sparse root depends only on the final key-value map (compact sparse Merkle root) --
+/// Compact root of a map with at most two entries.  Distinct keys first differ at bit `d`
+/// (bounded by the harness to d < 8): node = H(1, L_bit0, L_bit1) at the divergence point, every
+/// ancestor pairs the running hash with the 32-zero-byte placeholder on the other side.
+pub fn compact_root_2(k1: &B32, v1: &[u8], k2: &B32, v2: &[u8]) -> B32 {
+    let (l1, l2) = (s_leaf(k1, &s_sum(v1)), s_leaf(k2, &s_sum(v2)));
+    let mut d = 0usize;
+    while d < 8 && key_bit(k1, d) == key_bit(k2, d) { d += 1; }
+    assert!(d < 8, "harness bound: keys differ within the first byte");
+    let mut cur = if !key_bit(k1, d) { s_node(&l1, &l2) } else { s_node(&l2, &l1) };
+    let zero = [0u8; 32];
+    let mut depth = d;
+    while depth > 0 {
+        depth -= 1;
+        cur = if !key_bit(k1, depth) { s_node(&cur, &zero) } else { s_node(&zero, &cur) };
+    }
+    cur
+}
+type STree = SparseTree<SNodes, SArr<24>>;
+fn two_keys() -> (B32, B32) {
+    let (k1, k2): (B32, B32) = (kani::any(), kani::any());
+    kani::assume(k1[0] != k2[0]);
+    (k1, k2)
+}
+// insert order does not matter; result is the compact root
+h!(c12_two_inserts_both_orders, 300, {
+    let (k1, k2) = two_keys();
+    let (v1, v2) = (Val { b: kani::any() }, Val { b: kani::any() });
+    let mut a: STree = SparseTree::new(SArr::new());
+    a.insert(MerkleTreeKey::new_without_hash(k1), &v1.b).unwrap();
+    a.insert(MerkleTreeKey::new_without_hash(k2), &v2.b).unwrap();
+    let mut b: STree = SparseTree::new(SArr::new());
+    b.insert(MerkleTreeKey::new_without_hash(k2), &v2.b).unwrap();
+    b.insert(MerkleTreeKey::new_without_hash(k1), &v1.b).unwrap();
+    let want = compact_root_2(&k1, &v1.b, &k2, &v2.b);
+    assert!(eq32(&a.root(), &want));
+    assert!(eq32(&b.root(), &want));
+    kani::cover!(true, "two-leaf roots compared");
+    core::mem::forget(a); core::mem::forget(b);
+});
+// overwrite and delete: the root is that of the final map
+h!(c12_overwrite_then_delete, 300, {
+    let (k1, k2) = two_keys();
+    let (v1, v2, v3) = (Val { b: kani::any() }, Val { b: kani::any() }, Val { b: kani::any() });
+    let mut t: STree = SparseTree::new(SArr::new());
+    t.insert(MerkleTreeKey::new_without_hash(k1), &v1.b).unwrap();
+    t.insert(MerkleTreeKey::new_without_hash(k2), &v2.b).unwrap();
+    t.insert(MerkleTreeKey::new_without_hash(k1), &v3.b).unwrap();           // overwrite
+    assert!(eq32(&t.root(), &compact_root_2(&k1, &v3.b, &k2, &v2.b)));
+    t.delete(MerkleTreeKey::new_without_hash(k2)).unwrap();                    // back to one leaf
+    assert!(eq32(&t.root(), &s_leaf(&k1, &s_sum(&v3.b))));
+    t.delete(MerkleTreeKey::new_without_hash(k1)).unwrap();                    // empty
+    assert!(eq32(&t.root(), &[0u8; 32]));
+    kani::cover!(true, "history completed");
+    core::mem::forget(t);
+});
